@@ -434,6 +434,71 @@ def td_to_coq(tr, side):
                                crep(rec[3], lambda e, k: centry(e, attrs[k])))
     return '(%s, %s)' % (cN(ts), r)
 
+# ------------------------------------------------------------------ daemon-side converters
+
+SOURCES = [
+    [[10, 0, 0, 1], [10, 0, 0, 254], 65001, 65000, [10, 0, 0, 1]],
+    [[192, 0, 2, 1], [192, 0, 2, 254], 4200000000, 65000, [192, 0, 2, 1]],
+    [[0x20, 1, 0x0d, 0xb8] + [0] * 11 + [1], [0x20, 1, 0x0d, 0xb8] + [0] * 11 + [2], 65535, 4200000001, [172, 16, 254, 3]],
+    [[0xfe, 0x80] + [0] * 13 + [2], [0xfe, 0x80] + [0] * 13 + [1], 65536, 65000, [10, 0, 0, 2]],
+]
+SMALL_NLRI = {IPV4: [[0, 24, [10, 1, 1, 0]], [0, 24, [10, 1, 2, 0]], [0, 8, [10, 0, 0, 0]], [0, 32, [10, 1, 1, 1]]],
+              IPV6: [[1, 32, [0x20, 1, 0x0d, 0xb8] + [0] * 12], [1, 64, [0x20, 1, 0x0d, 0xb8, 0, 1, 0, 2] + [0] * 8],
+                     [1, 128, [0x20, 1] + [0] * 13 + [9]], [1, 0, [0] * 16]]}
+
+def gen_change(rng, src=None, small=False, n=None):
+    v6 = rng.random() < 0.45
+    fam = IPV6 if v6 else IPV4
+    ap = 1 if rng.random() < 0.3 else 0
+    if small:
+        k = n if n is not None else 1
+        es = []
+        while len(es) < k:
+            e = [pick(rng, [0, 1]) if ap else 0, pick(rng, SMALL_NLRI[fam])]
+            if e not in es: es.append(e)
+    else:
+        es = gen_entries(rng, v6, n if n is not None else pick(rng, [1, 1, 1, 2, 3]), ap)
+    reach = rng.random() < 0.65
+    return [src if src is not None else pick(rng, SOURCES), fam, ap, es,
+            [pick(rng, ATTRSETS)] if reach else [], gen_nexthop(rng, v6) if reach else [], pick(rng, U32S)]
+
+def cval(v):
+    if isinstance(v, list):
+        return 'VL [' + '; '.join(cval(x) for x in v) + ']'
+    return 'VI (%d)%%Z' % v
+
+def csource(sv):
+    return '{| s_raddr := %s; s_laddr := %s; s_rasn := %s; s_lasn := %s; s_rid := %s |}' % (
+        cip(sv[0]), cip(sv[1]), cN(sv[2]), cN(sv[3]), cbytes(sv[4]))
+
+def attrs_enc(attrs):
+    return [attr_wire(a) for a in attrs]
+
+def cchange(c):
+    return ('{| c_source := %s; c_family := %s; c_addpath := %s; c_nlris := %s; c_attrs := %s; c_nexthop := %s; c_ts := %s |}'
+            % (csource(c[0]), cN(c[1]), cbool(c[2]), clist([cval(e) for e in c[3]]),
+               ('(Some (%s))' % cval(attrs_enc(c[4][0]))) if c[4] else 'None', '(%s)' % cval(c[5]), cN(c[6])))
+
+def update_desc(c):
+    """what the converters must build from a change (Spec side)"""
+    if c[4]:
+        return [2, 0, c[1], c[3], c[5], attrs_enc(c[4][0])]
+    return [2, 1, c[1], c[3]]
+
+def net_state(changes, addr):
+    """Spec of the snapshot: (family, nlri) -> data of the last reach, for one peer"""
+    st = {}
+    for c in changes:
+        if c[0][0] != addr:
+            continue
+        for e in c[3]:
+            k = json.dumps([c[1], e])
+            if c[4]:
+                st[k] = (c, e)
+            else:
+                st.pop(k, None)
+    return st
+
 # ------------------------------------------------------------------ oracle helpers
 
 def norm_nlri(n):
@@ -617,6 +682,32 @@ class Prop:
         for ln, api in ((65535 - 7 - 4 - 7, 0), (65536 - 7 - 4 - 7, 1)):
             big = [[0, 1, 0], [1, 8, [-1, ln, 1]]]
             cases.append({'kind': 'td', 'pre': [], 'recs': [[7, [1, 1, [0, 8, [10, 0, 0, 0]], [[0, 1, [[10, 0, 0, 1]], big]]]]], 'api_only': api})
+        # ---- daemon-side converters (hooks in daemon/src/bmp.rs, daemon/src/mrt.rs)
+        for k in range(120 if q else 1200):
+            cases.append({'kind': 'dconv', 'change': gen_change(rng)})
+        for k in range(120 if q else 1200):
+            v6 = rng.random() < 0.5
+            fam = IPV6 if v6 else IPV4
+            reach = rng.random() < 0.7
+            cases.append({'kind': 'dloc', 'family': fam, 'net': gen_nlri(rng, v6), 'attrs': [pick(rng, ATTRSETS)] if reach else [],
+                          'nexthop': gen_nexthop(rng, v6) if reach else [], 'ts': pick(rng, U32S),
+                          'rid': pick(rng, V4S), 'asn': pick(rng, ASNS)})
+        for k in range(150 if q else 1500):
+            peers = [pick(rng, SOURCES) for _ in range(2)]
+            cs = [gen_change(rng, src=pick(rng, peers), small=True, n=pick(rng, [1, 1, 2])) for _ in range(rng.randrange(0, 9))]
+            who = pick(rng, peers + [pick(rng, SOURCES)])
+            cases.append({'kind': 'dflush', 'changes': cs, 'addr': who[0],
+                          'hdr': [0, pick(rng, [0, 0x40]), who[2], who[4], 0, who[0], pick(rng, U32S)], 'flags': pick(rng, [0, 0x40])})
+        for k in range(120 if q else 1200):
+            cases.append({'kind': 'dmrt', 'change': gen_change(rng)})
+        for k in range(120 if q else 1200):
+            routes = []
+            for _ in range(rng.randrange(0, 9)):
+                v6 = rng.random() < 0.5
+                fam = IPV6 if v6 else IPV4
+                routes.append([pick(rng, SOURCES), fam, pick(rng, SMALL_NLRI[fam]), pick(rng, [0, 0, 1]),
+                               gen_nexthop(rng, v6), pick(rng, ATTRSETS)])
+            cases.append({'kind': 'ddump', 'rid': pick(rng, V4S), 'routes': routes})
         return cases
 
     # ---- running
@@ -642,11 +733,21 @@ class Prop:
                 if kind == 'mrt' and r != [-1]:
                     r = [r[0], r[2], r[1]]          # [buffer, blobs, timestamps ok]
                 obs[k] = r
+        for hook, test, kinds in (('C19b', 'bmp::verif_hx::verif_bmp_cases', ('dconv', 'dloc', 'dflush')),
+                                  ('C19m', 'mrt::verif_hx::verif_mrt_cases', ('dmrt', 'ddump'))):
+            idx = [k for k, c in enumerate(cases) if c['kind'] in kinds]
+            if not idx:
+                continue
+            res, err = rustrun.daemon_test(hook, test, [self._dval(cases[k]) for k in idx])
+            if res is None:
+                return None, err
+            for k, r in zip(idx, res):
+                obs[k] = r
         # second pass: the repository's BGP parser on the PDUs the python readers find
         jobs, where = [], []
         for k, c in enumerate(cases):
             o = obs[k]
-            if o == [-1] or c['kind'] == 'td':
+            if o == [-1] or c['kind'] not in ('bmp', 'mrt'):
                 continue
             try:
                 views = self._views(c, o)
@@ -671,6 +772,14 @@ class Prop:
         for k in range(len(cases)):
             self._side[json.dumps(cases[k], sort_keys=True)] = obs[k]
         return obs, ''
+
+    def _dval(self, c):
+        k = c['kind']
+        if k == 'dconv': return [0, c['change']]
+        if k == 'dloc': return [1, c['family'], c['net'], c['attrs'], c['nexthop'], c['ts'], c['rid'], c['asn']]
+        if k == 'dflush': return [2, c['changes'], c['addr'], c['hdr'], c['flags']]
+        if k == 'dmrt': return [0, c['change']]
+        return [1, c['rid'], c['routes']]
 
     def _addpath_plan(self, c, o):
         """the add-path setting under which each embedded PDU, in stream order, is to be parsed:
@@ -698,16 +807,62 @@ class Prop:
                 # no reference encodings available (the implementation panicked): the model cannot be evaluated
                 terms.append('run_case [] []')
                 continue
-            if c['kind'] == 'bmp':
+            if c['kind'] == 'dconv':
+                terms.append('run_conv_update %s' % cchange(c['change']))
+            elif c['kind'] == 'dloc':
+                terms.append('run_loc %s (%s) %s (%s) %s %s %s %s' % (
+                    cN(c['family']), cval(c['net']), ('(Some (%s))' % cval(attrs_enc(c['attrs'][0]))) if c['attrs'] else 'None',
+                    cval(c['nexthop']), cN(c['ts']), cbytes(c['rid']), cN(c['asn']), cbytes(o[1])))
+            elif c['kind'] == 'dflush':
+                terms.append('run_flush %s %s %s %s' % (clist([cchange(x) for x in c['changes']]), cip(c['addr']), cpph(c['hdr']), cN(c['flags'])))
+            elif c['kind'] == 'dmrt':
+                terms.append('run_mrt_conv %s %s' % (cchange(c['change']), cbytes(o[1])))
+            elif c['kind'] == 'ddump':
+                def dch(desc, side):
+                    out = []
+                    for (nl, paths), (pfx, attrs) in zip(desc, side):
+                        ps = ['{| d_addr := %s; d_rid := %s; d_asn := %s; d_nh := %s; d_attrs := %s |}' % (
+                            cip(p[0]), cbytes(be(4, p[1])), cN(p[2]), copt_bytes(p[3]), clist([cbytes(a) for a in at]))
+                            for p, at in zip(paths, attrs)]
+                        out.append('(%s, %s)' % (cbytes(pfx), clist(ps)))
+                    return clist(out)
+                terms.append('run_dump %s %s %s %s' % (cbytes(c['rid']), cN(o[1]), dch(o[3], o[5]), dch(o[4], o[6])))
+            elif c['kind'] == 'bmp':
                 terms.append('run_case %s %s' % (cbytes(c['pre']), clist([bmp_to_coq(m, b) for m, b in zip(c['msgs'], o[1])])))
             elif c['kind'] == 'mrt':
                 terms.append('run_mrt %s %s' % (cbytes(c['pre']), clist([mp_to_coq(m, b) for m, b in zip(c['msgs'], o[1])])))
             else:
                 terms.append('%s %s %s' % ('run_td_digest' if c.get('digest') else 'run_td', cbytes(c['pre']), clist([td_to_coq(tr, sd) for tr, sd in zip(c['recs'], o[1])])))
-        pre = 'From RB Require Import Base.Val Base.Bytes Model.Bmp Model.Mrt.\nOpen Scope N_scope.'
+        pre = 'From RB Require Import Base.Val Base.Bytes Model.Bmp Model.Mrt Model.MonConv.\nOpen Scope N_scope.'
         return coqrun.eval_terms('C19', pre, terms)
 
     def canon(self, case, obs):
+        k = case['kind']
+        if obs == [-1]:
+            return obs
+        if k == 'dconv':
+            return obs
+        if k == 'dloc':
+            return obs
+        if k == 'dmrt':
+            return obs[:4]
+        if k == 'ddump':
+            return obs[0] if (obs and isinstance(obs[0], list)) else obs
+        if k == 'dflush':
+            if len(obs) == 3:        # implementation: [[bytes, blob, update, addpath]...], eor order, peers left
+                items = []
+                for it in obs[0]:
+                    try:
+                        v, _ = read_bmp(it[0], 0)
+                        pv = v['peer']
+                        v6 = bool(pv['flags'] & 0x80)
+                        hdr = [pv['type'], pv['flags'] & 0x7f, pv['asn'], pv['id'], pv['dist'],
+                               pv['addr'] if v6 else pv['addr'][12:], pv['sec']]
+                    except (Bad, KeyError):
+                        hdr = ['unreadable']
+                    items.append([hdr, it[2], it[3]])
+                return [sorted(items, key=json.dumps), sorted(obs[2])]
+            return [sorted(obs[0], key=json.dumps), sorted(obs[1])]
         if obs and isinstance(obs[0], list):
             if case.get('digest') and len(obs) == 2:
                 # implementation side of a digest case (the model prints [len, checksum, [first bytes]])
@@ -727,9 +882,115 @@ class Prop:
             return 'panic in the encoder'
         if c.get('api_only'):
             return None
+        if c['kind'].startswith('d'):
+            return self._oracle_daemon(c, obs)
         if obs[0][:len(c['pre'])] != c['pre']:
             return 'the encoder changed bytes that were already in the buffer'
         return {'bmp': self._oracle_bmp, 'mrt': self._oracle_mrt, 'td': self._oracle_td}[c['kind']](c, obs)
+
+    def _oracle_daemon(self, c, obs):
+        k = c['kind']
+        if k == 'dconv':
+            if obs != update_desc(c['change']):
+                return 'adj_rib_in_to_bmp_update built %s from a change that says %s' % (obs, update_desc(c['change']))
+            return None
+        if k == 'dloc':
+            want = [2, 0 if c['attrs'] else 1, c['family'], [[0, c['net']]]] + ([c['nexthop'], attrs_enc(c['attrs'][0])] if c['attrs'] else [])
+            if obs[2] != want or obs[3] != 0:
+                return 'loc_rib_to_bmp built %s, the Loc-RIB event says %s' % (obs[2], want)
+            try:
+                v, end = read_bmp(obs[0], 0)
+            except Bad as e:
+                return 'Loc-RIB message does not read back: %s' % e
+            if end != len(obs[0]) or v['ty'] != 0:
+                return 'Loc-RIB event is not exactly one Route Monitoring message'
+            return check_peer(v['peer'], [3, 0, c['asn'], c['rid'], 0, [0, 0, 0, 0], c['ts']], 'Loc-RIB header')
+        if k == 'dmrt':
+            ch = c['change']
+            if not obs[4]:
+                return 'MRT timestamp outside the wall-clock window of the call'
+            if obs[2] != update_desc(ch) or obs[3] != ch[2]:
+                return 'adj_rib_in_to_mrt built %s / add-path %s from a change that says %s / %s' % (obs[2], obs[3], update_desc(ch), ch[2])
+            try:
+                views = read_mrt_stream(obs[0], 0)
+            except Bad as e:
+                return 'BGP4MP record does not read back: %s' % e
+            src = ch[0]
+            for v in views:
+                if v['ty'] != 16 or v['sub'] != (8 if ch[2] else 4):
+                    return 'record type/subtype %d/%d does not state add-path=%d' % (v['ty'], v['sub'], ch[2])
+                if (v['peer_as'], v['local_as'], v['ifidx'], v['peer_ip'], v['local_ip']) != (src[2], src[3], 0, src[0], src[1]):
+                    return 'BGP4MP header differs from the session of the change'
+                if v['afi'] != (2 if len(src[0]) == 16 else 1):
+                    return 'address family does not match the peer address'
+            if b''.join(bytes(v['pdus'][0]) for v in views) != bytes(obs[1]):
+                return 'the records do not carry the BGP message(s) of the change'
+            return None
+        if k == 'dflush':
+            items, eor_last, left = obs
+            if not eor_last:
+                return 'End-of-RIB messages do not follow the route messages'
+            st = net_state(c['changes'], c['addr'])
+            want_routes, fams = [], set()
+            for key, (ch, e) in st.items():
+                fams.add(ch[1])
+                want_routes.append([[0, c['flags'], ch[0][2], ch[0][4], 0, ch[0][0], ch[6]], [2, 0, ch[1], [e], ch[5], attrs_enc(ch[4][0])], ch[2]])
+            want_eor = [[c['hdr'], [2, 2, f], 0] for f in fams]
+            got = self.canon(c, obs)[0]
+            want = sorted(want_routes + want_eor, key=json.dumps)
+            if got != want:
+                return 'flush_peer_snapshot sent %d messages, the net state of the peer is %d routes in %d families (or their content differs)' % (len(got), len(want_routes), len(fams))
+            others = sorted(set(json.dumps(ch[0][0]) for ch in c['changes'] if ch[4] and ch[0][0] != c['addr']))
+            if sorted(json.dumps(a) for a in left) != others and not set(json.dumps(a) for a in left) >= set(others):
+                return 'flush removed another peer from the snapshot'
+            if c['addr'] in left:
+                return 'the flushed peer is still in the snapshot'
+            return None
+        # ddump
+        buf, ts, ts_ok, d4, d6 = obs[0], obs[1], obs[2], obs[3], obs[4]
+        if not ts_ok:
+            return 'dump timestamp outside the wall-clock window of the call'
+        try:
+            views = read_mrt_stream(buf, 0)
+        except Bad as e:
+            return 'the dump is not a sequence of well-formed MRT records: %s' % e
+        if not views or views[0]['ty'] != 13 or views[0]['sub'] != 1:
+            return 'the dump does not start with a PEER_INDEX_TABLE'
+        pit = views[0]
+        if pit['collector'] != c['rid'] or pit['count'] != len(pit['peers']):
+            return 'PEER_INDEX_TABLE collector id / count differ'
+        if len(set(json.dumps(p[2]) for p in pit['peers'])) != len(pit['peers']):
+            return 'PEER_INDEX_TABLE lists a peer address twice'
+        want = {}
+        for r in c['routes']:
+            want[json.dumps([r[1], r[2], r[0][0], r[3]])] = r
+        seen, seqs = [], {2: [], 4: []}
+        for v in views[1:]:
+            if v['ty'] != 13 or v['sub'] not in (2, 4) or v['ts'] != ts:
+                return 'unexpected record type/subtype/timestamp in the dump'
+            seqs[v['sub']].append(v['seq'])
+            if v['count'] == 0:
+                return 'a RIB record without entries was written'
+            for idx, orig, ab in v['entries']:
+                if idx >= len(pit['peers']):
+                    return 'peer index %d with %d peers in the index table' % (idx, len(pit['peers']))
+                if orig != ts:
+                    return 'originated time differs from the dump timestamp'
+                seen.append((v['sub'], v['plen'], tuple(v['prefix']), tuple(pit['peers'][idx][2]), tuple(ab)))
+        for sub in (2, 4):
+            if seqs[sub] != list(range(len(seqs[sub]))):
+                return 'sequence numbers of subtype %d are %s' % (sub, seqs[sub])
+        wantl = []
+        for r in want.values():
+            mask, addr = r[2][1], r[2][2]
+            wantl.append((2 if r[1] == IPV4 else 4, mask, tuple(addr[:(mask + 7) // 8]), tuple(r[0][0])))
+        if sorted(x[:4] for x in seen) != sorted(wantl):
+            return 'the (prefix, peer) pairs dumped differ from the Loc-RIB contents (%d dumped, %d routes)' % (len(seen), len(wantl))
+        for p in pit['peers']:
+            srcs = [r[0] for r in c['routes'] if r[0][0] == p[2]]
+            if not srcs or (p[1], p[3]) != (srcs[0][4], srcs[0][2]) or bool(p[0] & 1) != (len(p[2]) == 16) or not p[0] & 2:
+                return 'peer entry %s does not describe a session of the dump' % (p,)
+        return None
 
     def _oracle_mrt(self, c, obs):
         buf, blobs, parsed, ts_ok = obs[0], obs[1], obs[2], obs[3]
@@ -896,6 +1157,19 @@ class Prop:
         if obs == [-1]:
             return ('panic',)
         key = []
+        if c['kind'] in ('dconv', 'dmrt'):
+            ch = c['change']
+            return (c['kind'], ch[1], ch[2], len(ch[3]), bool(ch[4]), len(ch[0][0]), len(ch[5][0]) if ch[5] else 0)
+        if c['kind'] == 'dloc':
+            return ('dloc', c['family'], bool(c['attrs']), c['net'][1], c['asn'], c['ts'])
+        if c['kind'] == 'dflush':
+            if not c['changes']:
+                return None
+            return ('dflush', tuple((json.dumps(ch[0][0]) == json.dumps(c['addr']), ch[1], bool(ch[4]), json.dumps(ch[3])) for ch in c['changes']))
+        if c['kind'] == 'ddump':
+            if not c['routes']:
+                return None
+            return ('ddump', tuple(sorted((r[1], json.dumps(r[2]), json.dumps(r[0][0]), r[3]) for r in c['routes'])))
         if c['kind'] == 'td':
             for ts, rec in c['recs']:
                 if rec[0] == 0:
@@ -927,6 +1201,14 @@ class Prop:
             tags.append('correspondence_only')
         if obs == [-1]:
             return tags + ['panic']
+        if c['kind'].startswith('d'):
+            if c['kind'] == 'dflush':
+                st = net_state(c['changes'], c['addr'])
+                tags.append('flush_%s' % ('empty' if not st else 'routes'))
+                if any(not ch[4] for ch in c['changes']): tags.append('flush_with_withdrawals')
+            if c['kind'] == 'ddump':
+                tags.append('dump_%d_peers' % len(set(json.dumps(r[0][0]) for r in c['routes'])))
+            return sorted(set(tags))
         if c['pre']:
             tags.append('prefilled_buffer')
         if c['kind'] == 'td':
